@@ -48,7 +48,9 @@ def cases(draw, pools=False):
     return {"part": "sched", **m, "opts": o, "chunksize": chunksize, "map": draw(st.sampled_from(kinds)),
             "perm_seed": draw(st.integers(0, 2**16)), "workers": draw(st.integers(2, 4)),
             # history: the Cooler object predates a re-creation of the collection (same bins, more pixels)
-            "stale_object": draw(st.integers(0, 3)) == 0}
+            "stale_object": draw(st.integers(0, 3)) == 0,
+            # history: the same path first held (and was balanced as) a cooler with the same bins but other chromosome boundaries
+            "prior_layout": draw(st.integers(0, 3)) == 0 and len(m["sizes"]) >= 2}
 
 
 class RecordingMap:
@@ -119,6 +121,17 @@ def check_sched(case, ctx: Ctx):
         edges_ = [[10 * k for k in range(s_ + 1)] for s_ in case["sizes"]]
         bt_ = {"names": [f"chr{t + 1}" for t in range(len(edges_))], "edges": edges_, "kinds": ["fixed"] * len(edges_)}
         call("re-create with the full matrix", create_from_model, path, bt_, case["rows"], True, h5opts={"compression": None}, mode="a")
+    elif case.get("prior_layout"):
+        from ..coolio import create_from_model
+
+        sizes2 = case["sizes"][::-1] if case["sizes"] != case["sizes"][::-1] else [case["n"]]
+        path = c10.make_cooler(ctx, dict(case, sizes=sizes2))
+        _ = call("balance_cooler (earlier collection at the same path)", c10.run_balance, cooler.Cooler(path),
+                 dict(o, x0=None, blacklist=None, max_iters=2), chunksize=case["chunksize"])
+        edges_ = [[10 * k for k in range(s_ + 1)] for s_ in case["sizes"]]
+        bt_ = {"names": [f"chr{t + 1}" for t in range(len(edges_))], "edges": edges_, "kinds": ["fixed"] * len(edges_)}
+        call("replace the collection at the same path", create_from_model, path, bt_, case["rows"], True, h5opts={"compression": None})
+        clr = cooler.Cooler(path)
     else:
         path = c10.make_cooler(ctx, case)
         clr = cooler.Cooler(path)
